@@ -40,6 +40,8 @@ def rules(ctx):
     C06.c065(ctx)     # the timestamp a scan captures covers only batches that are completely inserted, together with all earlier ones
     c071(ctx)
     C08.c085(ctx, R="C07.2")
+    C08.c084(ctx)      # the orphan scan (which ignores reference counts) never runs while a cursor can pin a file
+    C08.c082(ctx)      # a file leaves sst/ only when its last reference is released
     C03.c031_store(ctx)
     C03.c031_leaves(ctx)
     c074(ctx)
